@@ -18,9 +18,9 @@ THEOREMS = [
     'AiutiVerif.Split.C18_exhaust',
 ]
 ASSUMPTIONS = [
-    'CPython itertools.tee / compress / map pull order as modelled in Split/Model.lean '
-    '(compress pulls the datum, then the selector; tee pulls from its source only at the end of '
-    'the shared buffer) - validated on every run by comparing pull and predicate logs',
+    'CPython itertools.tee / map / generator-expression pull order as modelled in Split/Model.lean '
+    '(map pulls the element, then the decision; tee pulls from its source only at the end of '
+    'the shared buffer; a generator that has stopped stays stopped) - validated on every run by comparing pull and predicate logs',
     'an exhausted source keeps raising StopIteration (true of lists, ranges, generators)',
 ]
 RULE = ('bounded-exhaustive over sources (length 0..L over a 3-value domain; as logging generator, '
@@ -293,6 +293,57 @@ def exhaust_cases(out):
     out.count('exhaust', 9)
 
 
+def raising_cases(out):
+    """A condition that raises for one element (a bad record): whoever asks for that element gets the error and
+    gives that side up; the *other* side must still be exactly the elements of its own truth value among those whose
+    condition did not raise.  Outside the Lean model (its conditions have truth values): monitor only."""
+    from aiuti.itertools import split
+
+    class Bad(Exception):
+        pass
+    for n in range(2, 7):
+        for bad in range(0, n - 1):
+            for first in ('T', 'F'):
+                for srckind in ('list', 'gen'):
+                    xs = list(range(n))
+                    truth = [(x * 7 + n) % 3 != 0 for x in xs]
+
+                    def cond(x, bad=bad, truth=truth):
+                        if x == bad:
+                            raise Bad(x)
+                        return truth[x]
+                    src = list(xs) if srckind == 'list' else (x for x in xs)
+                    t, f = split(src, cond)
+                    a, b = (t, f) if first == 'T' else (f, t)
+                    got_a = []
+                    try:
+                        for v in a:
+                            got_a.append(v)
+                    except Bad:
+                        pass
+                    a = None
+                    got_b = []
+                    try:
+                        for v in b:
+                            got_b.append(v)
+                    except Bad:
+                        pass
+                    want_b = [x for x in xs if x != bad and truth[x] == (first != 'T')]
+                    out.evaluations += 1
+                    case = {'raising': True, 'n': n, 'bad': bad, 'first': first, 'srckind': srckind}
+                    wrong = [x for x in got_b if x == bad or truth[x] != (first != 'T')]
+                    missing = [x for x in want_b if x not in got_b and x > bad]
+                    if wrong or missing:
+                        out.concrete.append({
+                            'case': case,
+                            'what': f'the condition raises for element {bad}; the {"true" if first == "T" else "false"} side '
+                                    f'saw the error and was given up; the other side then yielded {got_b}: {wrong} do not '
+                                    f'belong to it and {missing} (whose condition was evaluated without error) are missing',
+                            'observed': {'first_side': got_a, 'other_side': got_b},
+                            'signature': {'kind': 'desync-after-raising-condition'}})
+    out.count('raising-condition cases', 1)
+
+
 class _Ctx:
     pass
 
@@ -304,6 +355,7 @@ def _chunk(payload):
     out = Outcome()
     if part == 0:
         exhaust_cases(out)
+        raising_cases(out)
     batch = []
     for i, case in enumerate(gen_cases(ctx)):
         if i % nparts != part:
